@@ -8,6 +8,7 @@ the same `retry`), same resulting records, same closing decision, same delays.
 from __future__ import annotations
 
 import json
+import random
 from typing import Any
 
 import ast
@@ -97,7 +98,19 @@ LEVEL_TEXT = ("Lean theorems for all stored-record maps, outcome scripts, lifecy
               "the property's first sentence over the HISTORY of the object — once a pass of the cycle was given the object with the handler's "
               "(or sub-handler's) own success / permanent failure on it, no later pass of that cycle invokes it: whatever the view given later "
               "carries, whether or not it was selected in between, across graceful stops AND kills; the end of the cycle is judged from the "
-              "property text (every selected handler finished / nothing selected / another or no cause).")
+              "property text (every selected handler finished / nothing selected / another or no cause). "
+              "THE VIEW A PASS IS GIVEN AFTER THE OPERATOR'S OWN PROGRESS-STORING WRITE (seed C02h's class; model Kopf.Model.C02_View: the worker's "
+              "one test `m seen expected` on the version of its own patch as a parameter, versions in the server's order): for EVERY test that "
+              "accepts no older version (kopf's equality: mEq_sound) and every queue of older foreign views, the pass admitted before the "
+              "consistency timeout runs on the records the own write stored (admitted_view_carries_own_write), hence "
+              "no_rerun_after_own_write / retry_kwarg_after_own_write; the string order of the seeded change is unsound "
+              "(string_order_unsound_witness: '99' >= '100') and on the history 98 -> foreign 99 -> own 100 re-invokes the finished handler and "
+              "restarts the retry number (string_order_reruns_witness). Oracle clause added (oracle_own_write): 'recorded on the object' read over "
+              "the object as the SERVER holds it after the operator's own acknowledged PATCH (request log + version history of the fake server), "
+              "not over the view the pass is given: a pass of the same operator process on an older view (server's order of versions) within the "
+              "consistency timeout must not invoke a handler that write records as finished, must pass `retry` = the attempts it records, and "
+              "must not start a cycle over that the write closed. The server's numbering of its versions (width boundaries, gaps, 1-19 digits) "
+              "is part of every generated history (histograms rv_plan, handlers_run_on_a_view_older_than_the_own_write, views_older_than_the_own_write).")
 THEOREMS = [("Kopf.Props.C02", "Kopf.C02." + n) for n in [
     "no_rerun", "retry_kwarg", "invoked_selected_awake", "closed_iff_all_finished", "closed_ignores_unselected_records",
     "closed_despite_unselected_unfinished", "counts_running_variant_never_closes", "counts_running_variant_never_closes_witness",
@@ -120,7 +133,9 @@ THEOREMS = [("Kopf.Props.C02", "Kopf.C02." + n) for n in [
     "reported_purged_on_close", "nested_records_purged_on_close", "nested_accumulator_regression",
     "parentOutcome_subrefs", "parentOutcome_open", "parentOutcome_own", "failing_parent_children_purged_on_close",
     "left_out_is_resumed", "selectResumed_sub", "resumedAfter_mem", "closing_empties_resumed", "resumed_run_all_final",
-    "left_out_had_finished", "finished_never_invoked_resumed"]]
+    "left_out_had_finished", "finished_never_invoked_resumed"]] + [("Kopf.Props.C02_View", "Kopf.C02." + n) for n in [
+    "mEq_sound", "admitted_view_carries_own_write", "no_rerun_after_own_write", "retry_kwarg_after_own_write",
+    "string_order_unsound_witness", "string_order_reruns_witness"]]
 TIE_THEOREMS = [("Kopf.Tie.C02", "Kopf.C02.Tie." + n) for n in [
     "finished_eq", "sleeping_eq", "awakened_eq", "success_eq", "failure_eq", "one_by_one_eq", "all_at_once_eq"]]
 RULE = ("seeded scenarios: 1-4 change handlers (create/update/delete/resume, optional sub-handlers), outcome scripts over "
@@ -159,7 +174,12 @@ RULE = ("seeded scenarios: 1-4 change handlers (create/update/delete/resume, opt
         "function object under `@on.resume` + `@on.update|create|delete` in either order of registration (kopf keeps the first "
         "registered where both match); half of gen_stacked with ONE function object (`same_fn`); a sample of every family re-run under "
         "another `settings.persistence.progress_storage` (annotations under another prefix, status.<name>.progress, both; histogram "
-        "progress_storage); one case = one handling pass; distinct & non-trivial = "
+        "progress_storage); a STALE-VIEW family (gen_stale_view): somebody else's writes between the event a pass works on and the pass's own "
+        "progress-storing PATCH (while a handler sleeps, or slipped in right before the n-th PATCH), one or two handlers finishing in that pass "
+        "(success / permanent failure / retries=), a sibling retrying after 0.125-1 s, all causes and lifecycles, echoes within the consistency "
+        "timeout; the server's version numbering as part of EVERY scenario of every family (gen_rv_plan: the counter starts below a power of ten "
+        "or a round number, leaps to the next decimal width right before the n-th own PATCH, gaps, magnitudes up to 2^62; histogram rv_plan); "
+        "one case = one handling pass; distinct & non-trivial = "
         "distinct abstracted (reason, stored-record shape, outcomes, closing) tuples with at least one handler selected")
 TRUSTED = ["harness/sim (virtual-time loop, fake API server, scripted handlers, attribute-level observation of kopf)",
            "abstraction of a pass: records decoded with kopf's own progress storage (C16's subject)",
@@ -455,6 +475,135 @@ def gen_foreign_burst(rng: Any, i: int) -> dict:
     return {"seed": i, "lifecycle": rng.choice(["one_by_one", "asap", "all_at_once"]), "handlers": handlers,
             "timeline": timeline, "settings": {"execution.default_backoff": 1.0},
             "echo_delay": {"default": rng.choice([0.0, 0.0, 0.25, 0.5, 1.0])}, "end": t + 30.0}
+
+
+def gen_rv_plan(rng: Any) -> dict | None:
+    """How the server numbers its versions (the environment's part of every history; the plan language and the classes are
+    C07's `gen_rv_plan`, copied). To a client a resourceVersion is an opaque string. The fake server's own numbering (101,
+    102, …) keeps ONE decimal width, consecutive and small numbers for a whole history; a real server's counter is shared by
+    all objects (gaps), grows through every power of ten, and is a 64-bit number. Classes: the counter starts shortly below a
+    power of ten (widths 1-19) or another round number d·10^k; it leaps to the end of its width right before the n-th PATCH
+    of the operator (the operator's own write gets the first version one digit longer than a foreign write made just before
+    it); magnitudes around 2^31, 2^53, 10^18, 2^62; gaps between versions."""
+    mode = rng.choice(["default", "near", "near", "near", "jump", "jump", "jump", "big", "random"])
+    if mode == "default":
+        return None
+    strides = rng.choice([[1], [1], [1], [1, 1, 2], [1, 3, 1, 7], [2], [11, 1, 1], [1, 1, 1, 90]])
+    k = rng.choice([1, 2, 2, 3, 3, 4, 5, 6, 8, 9, 12, 16, 18])
+    plan: dict = {"strides": strides, "mode": mode}
+    if mode == "near":
+        plan["start"] = max(1, rng.choice([1, 1, 1, 2, 7]) * 10 ** k
+                            - rng.randrange(3, 3 + rng.choice([6, 12, 25, 40]) * max(1, sum(strides) // len(strides))))
+    elif mode == "big":
+        plan["start"] = rng.choice([2 ** 31, 2 ** 53, 2 ** 53, 10 ** 18, 2 ** 62]) + rng.randrange(-20, 60)
+    elif mode == "random":
+        plan["start"] = rng.randrange(10 ** (k - 1), 10 ** k)
+    else:
+        if rng.random() < 0.6:
+            plan["start"] = rng.choice([1, 5, 40, 470, 5000, 123456, 10 ** 8 + 7, 2 ** 53 + 11, 10 ** 18 + 3])
+        plan["jumps"] = [{"nth": n} for n in sorted(set(rng.choice([1, 1, 2, 2, 3, 3, 4, 5, 7]) for _ in range(rng.choice([1, 1, 2, 3]))))]
+    return plan
+
+
+def gen_stale_view(rng: Any, i: int) -> dict:
+    """VIEWS OLDER THAN THE OPERATOR'S OWN PROGRESS-STORING WRITE, queued behind it (seed C02h's class): somebody else writes
+    to the object between the event a pass works on and the PATCH with which that pass records its handlers' progress — while
+    a handler runs (it sleeps; edits on the timeline land in that window), or right before the n-th PATCH of the operator
+    (`slips`) — so that the stream delivers the foreign version(s) first (they carry no trace of the progress just recorded)
+    and the patched version after them; nothing is lost, nothing crashes, every echo arrives well within the consistency
+    timeout. The handlers: one or two that finish in that pass (success / permanent failure / by retries=), a sibling that
+    fails temporarily with a short delay (its next attempt falls INTO the window in which the stale views are queued) or an
+    arbitrary error, sometimes all successful (then the stale view must not start the closed cycle over); causes create /
+    update / resume / delete; three lifecycles. The server's numbering of its versions is part of the history (`rv`): the own
+    write's version one digit longer than the stale views' (the counter leaps right before that PATCH, or starts just below a
+    power of ten and the slip / the burst of edits carries it across), gaps, 1-19 digits, beside the fake server's default."""
+    cause = rng.choice(["create", "create", "update", "update", "resume", "delete"])
+    lifecycle = rng.choice(["all_at_once", "all_at_once", "asap", "one_by_one"])
+    finals = [rng.choice(["ok", "ok", "perm", "retries"]) for _ in range(rng.choice([1, 1, 2]))]
+    handlers: list[dict] = []
+    sleeper = rng.random() < 0.6
+    for k, f in enumerate(finals):
+        script: list = {"ok": [], "perm": ["perm"], "retries": ["arb"]}[f]
+        opts: dict[str, Any] = {"retries": 1} if f == "retries" else {}
+        if sleeper and k == 0:
+            d = rng.choice([0.25, 0.5, 1.0])
+            script = [["sleep", d, script[0] if script else "ok"]]
+        handlers.append({"kind": cause, "id": f"f{k}", "opts": opts, "script": script, "default": "ok"})
+    if rng.random() < 0.85:
+        n_fail = rng.choice([1, 1, 2, 3])
+        handlers.append({"kind": cause, "id": "w", "opts": {"backoff": rng.choice([0.25, 0.5, 1.0])}, "default": rng.choice(["ok", "ok", "perm"]),
+                         "script": [rng.choice([["temp", 0.125], ["temp", 0.25], ["temp", 0.5], ["temp", 1.0], "arb"]) for _ in range(n_fail)]})
+    if cause != "delete" and rng.random() < 0.15:
+        handlers.append({"kind": "delete", "id": "d", "opts": {"optional": rng.random() < 0.5}, "script": [], "default": "ok"})
+    if lifecycle != "one_by_one" or rng.random() < 0.3:
+        rng.shuffle(handlers)
+    body0: dict[str, Any] = {"spec": {"x": 0}, "metadata": {"labels": {"l": "1"}, "annotations": {}}}
+    essence0 = {"spec": {"x": 0}, "metadata": {"labels": {"l": "1"}}}
+    sc: dict[str, Any] = {"seed": i, "lifecycle": lifecycle, "handlers": handlers, "family": "stale-view",
+                          "settings": {"execution.default_backoff": 1.0}}
+    if rng.random() < 0.3:
+        sc["settings"]["persistence.consistency_timeout"] = rng.choice([2.0, 8.0])
+    timeline: list[list] = []
+    if cause == "create" or rng.random() < 0.4:
+        timeline.append([1.0, "create", "a", body0])
+        t0 = 1.0
+        if cause in ("update", "delete"):
+            t0 = 4.0
+            timeline.append([t0, "edit", "a", {"spec": {"x": 1}}] if cause == "update" else [t0, "delete", "a"])
+        elif cause == "resume":
+            t0 = 4.0
+            timeline += [[3.0, "stop"], [t0, "start"]]
+    else:
+        body0["metadata"]["annotations"][OWN_PREFIX + "last-handled-configuration"] = json.dumps(essence0, separators=(",", ":")) + "\n"
+        if cause == "delete":
+            body0["metadata"]["finalizers"] = [OWN_FINALIZER]
+        sc["objects"] = [{"name": "a", "body": body0}]
+        t0 = 0.0
+        if cause in ("update", "delete"):
+            t0 = rng.choice([1.0, 2.0])
+            timeline.append([t0, "edit", "a", {"spec": {"x": 1}}] if cause == "update" else [t0, "delete", "a"])
+    # foreign writes that do not touch what the handlers are about (labels nobody filters on, the status, a foreign annotation)
+    def foreign(j: int) -> dict:
+        return rng.choice([{"metadata": {"labels": {f"z{j % 2}": str(j)}}}, {"metadata": {"labels": {f"z{j % 2}": str(j)}}},
+                           {"status": {"foreign": j}}, {"metadata": {"annotations": {"example.com/seen": str(j)}}}])
+    slips: list[dict] = []
+    if not sleeper or rng.random() < 0.5:
+        for n in sorted(set(rng.choice([1, 1, 2, 2, 3]) for _ in range(rng.choice([1, 1, 2])))):
+            slips.append({"nth": n, "op": ["edit", "a", foreign(10 + n)]})
+    if sleeper:
+        # while the first finishing handler sleeps (it starts a few ticks after t0: the API latency)
+        t = t0 + 0.0625
+        for j in range(rng.choice([1, 1, 2, 3])):
+            t += rng.choice([0.03125, 0.0625, 0.125])
+            if t < t0 + 0.25:
+                timeline.append([t, "edit", "a", foreign(j)])
+    if slips:
+        sc["slips"] = slips
+    # the server's numbering: mostly a width boundary at one of the first own writes
+    r = rng.random()
+    if r < 0.55:
+        plan: dict[str, Any] = {"mode": "jump", "strides": rng.choice([[1], [1], [1, 2], [3, 1]]),
+                                "jumps": [{"nth": n} for n in sorted({s["nth"] for s in slips} or {rng.choice([1, 2])})]}
+        if rng.random() < 0.6:
+            plan["start"] = rng.choice([1, 5, 40, 470, 5000, 123456, 10 ** 8 + 7, 2 ** 53 + 11, 10 ** 18 + 3])
+        sc["rv"] = plan
+    elif r < 0.8:
+        k = rng.choice([1, 2, 2, 3, 3, 4, 6, 9, 12, 18])
+        sc["rv"] = {"mode": "near", "strides": [1], "start": max(1, 10 ** k - rng.randrange(2, 9))}
+    else:
+        rvp = gen_rv_plan(rng)
+        if rvp is not None:
+            sc["rv"] = rvp
+    if rng.random() < 0.3:
+        sc["echo_delay"] = {"default": rng.choice([0.125, 0.25, 0.5])}
+    if rng.random() < 0.2:
+        ts = t0 + rng.choice([3.0, 6.0])
+        timeline += [[ts, rng.choice(["stop", "kill"])], [ts + 1.0, "start"]]
+    if rng.random() < 0.15:
+        sc["status_subresource"] = True
+    sc["timeline"] = timeline
+    sc["end"] = t0 + 30.0
+    return sc
 
 
 DESELECT_FIELDS = ["x", "y", "z"]
@@ -1568,9 +1717,104 @@ def oracle(ctx: Ctx, sc: dict, tr: dict) -> None:
                 for key in [k for k in succ if k[0] == cyc["uid"]]:
                     succ.pop(key)
     oracle_recorded(ctx, sc, tr)
+    oracle_own_write(ctx, sc, tr)
 
 
-SIG_RECORDED = {"site": "process_changing_cause", "shape": "handler invoked again after its final outcome was recorded on the object earlier in the same handling cycle"}
+SIG_STALE_FIN = {"site": "queueing.worker", "shape": "handler invoked on a view older than the operator's own write that records it as finished"}
+SIG_STALE_RETRY = {"site": "queueing.worker", "shape": "retry number restarted: handler invoked on a view older than the operator's own write that records its attempts"}
+
+
+def _default_consistency_timeout() -> float:
+    try:
+        import kopf
+        return float(kopf.OperatorSettings().persistence.consistency_timeout)
+    except Exception:  # noqa: BLE001
+        return 5.0
+
+
+def oracle_own_write(ctx: Ctx, sc: dict, tr: dict) -> None:
+    """"… a handler whose success or permanent failure is RECORDED ON THE OBJECT is never invoked again — across … intervening
+    events …, and a handler still due is invoked with a retry number equal to its RECORDED attempts", read over the object AS
+    THE SERVER HOLDS IT, not over the view a pass happens to be given: once the server has acknowledged the operator's own
+    progress-storing write (PATCH → 200, request log of the fake server), what that write stored is recorded on the object, and
+    the operator process that made it knows so. A later pass of the SAME operator process that runs its handlers on a view OLDER
+    than that write (older by the server's own order of the versions it stored; a resourceVersion is an opaque string) is
+    judged against what the write recorded: a handler recorded there as finished must not be invoked, a handler that is
+    invoked gets `retry` = the attempts recorded there. Excused, as the property says: lost API responses / rejected writes
+    (scenarios with faults), crashes and restarts (another operator process: it starts from a listing), echoes later than the
+    consistency timeout (the invocation is at least `consistency_timeout` after the write was requested). Records of another
+    cause than the one the pass handles are no claim on it (a superseding cause starts its own cycle)."""
+    if sc.get("faults"):
+        return
+    T = float((sc.get("settings") or {}).get("persistence.consistency_timeout", _default_consistency_timeout()) or 0.0)
+    calls = tr["calls"]
+    order: dict[Any, dict[str, int]] = {}      # uid -> version -> position in the server's own history of the object
+    for versions in (tr.get("history") or {}).values():
+        for pos_, v in enumerate(versions):
+            meta = (v.get("body") or {}).get("metadata") or {}
+            order.setdefault(meta.get("uid"), {}).setdefault(str(meta.get("resourceVersion")), pos_)
+    writes: dict[Any, list[dict]] = {}
+    for q in tr.get("requests") or []:
+        if q.get("method") == "PATCH" and q.get("response") == 200 and q.get("target_uid") and isinstance(q.get("result"), dict) \
+                and "/kopfexamples/" in q.get("path", ""):
+            writes.setdefault(q["target_uid"], []).append(q)
+    last: dict[tuple, dict] = {}        # (operator process, uid) -> its last acknowledged write that carries progress records
+    for cyc in tr["cycles"]:
+        uid, key = cyc["uid"], (cyc["inc"], cyc["uid"])
+        p = cyc.get("pcc") or {}
+        W = last.get(key)
+        pos = order.get(uid, {})
+        if W is not None and cyc["invoked"] and p.get("reason") in KINDS and str(cyc["rv"]) in pos and W["rv"] in pos \
+                and pos[str(cyc["rv"])] < pos[W["rv"]]:
+            crossed = len(str(cyc["rv"])) < len(W["rv"])
+            for inv in cyc["invoked"]:
+                hid = _hid(inv)
+                t_call = calls[inv["call"]]["t"] if "call" in inv and calls[inv["call"]].get("t") is not None else cyc["t0"]
+                late = T <= 0 or t_call - W["t"] >= T
+                ctx.count("handlers_run_on_a_view_older_than_the_own_write",
+                          f"{'after the consistency timeout (excused)' if late else 'WITHIN the consistency timeout'}"
+                          f"{', own version one digit longer' if crossed else ''}")
+                if late:
+                    continue
+                rec = W["records"].get(hid.replace("/", "."))
+                where = (f"pass {cyc['i']} ran on resourceVersion {cyc['rv']}, older than {W['rv']}, the version the server returned for "
+                         f"the operator's own PATCH of pass {W['cycle']} requested {t_call - W['t']} s earlier (consistency_timeout={T})")
+                if rec is None and W["closing"] and W["reason"] == p["reason"] and hid in W["finished_in_cycle"]:
+                    # "every handler succeeds at most once per cycle" / "closed … exactly when every selected handler has finished":
+                    # the own write CLOSED the cycle (last-handled state written, records removed); the older view knows nothing
+                    # of it and the same change is handled from scratch
+                    ctx.oracle_fail(f"handler {hid} is invoked (retry={inv['retry']}) for a change whose handling cycle the operator itself has "
+                                    f"closed by its own acknowledged write (last-handled state written, progress records removed): {where}",
+                                    {"scenario": sc, "cycle": cyc["i"], "own_write_cycle": W["cycle"]},
+                                    {"site": "queueing.worker", "shape": "closed cycle started over on a view older than the operator's own closing write"})
+                if not isinstance(rec, dict) or rec.get("purpose") not in (None, p["reason"]):
+                    continue
+                if _finished(rec):
+                    ctx.oracle_fail(f"handler {hid} is invoked (retry={inv['retry']}) although its {'success' if rec.get('success') else 'permanent failure'} "
+                                    f"is recorded on the object by the operator's own acknowledged write: {where}",
+                                    {"scenario": sc, "cycle": cyc["i"], "own_write_cycle": W["cycle"], "record": rec}, SIG_STALE_FIN)
+                elif int(rec.get("retries") or 0) != inv["retry"]:
+                    ctx.oracle_fail(f"handler {hid} is invoked with retry={inv['retry']} although {int(rec.get('retries') or 0)} attempt(s) are "
+                                    f"recorded on the object by the operator's own acknowledged write: {where}",
+                                    {"scenario": sc, "cycle": cyc["i"], "own_write_cycle": W["cycle"], "record": rec}, SIG_STALE_RETRY)
+        elif W is not None and not cyc["invoked"] and str(cyc["rv"]) in pos and W["rv"] in pos and pos[str(cyc["rv"])] < pos[W["rv"]]:
+            ctx.count("views_older_than_the_own_write", f"held back (no handler invoked)"
+                      f"{', own version one digit longer' if len(str(cyc['rv'])) < len(W['rv']) else ''}")
+        # the acknowledged writes of this pass (by the request log: same object, requested from inside this pass)
+        for q in writes.get(uid, []):
+            if q.get("cycle") == cyc["i"]:
+                rv = str(((q["result"].get("metadata") or {}).get("resourceVersion")))
+                recs = _progress_records(q["result"], sc)
+                if rv in pos and (W is None or pos.get(W["rv"], -1) < pos[rv]):
+                    ann = ((q.get("payload") or {}).get("metadata") or {}).get("annotations") or {} if isinstance(q.get("payload"), dict) else {}
+                    fin = sorted(h for h, o in (p.get("outcomes") or {}).items() if o.get("final")) + \
+                        sorted(h for h, r in (p.get("P") or {}).items() if _finished(r))
+                    W = {"rv": rv, "t": q["wall"], "cycle": cyc["i"], "records": recs, "reason": p.get("reason"), "finished_in_cycle": fin,
+                         "closing": any(k.endswith("/last-handled-configuration") and v is not None for k, v in ann.items())}
+                    last[key] = W
+
+
+SIG_RECORDED ={"site": "process_changing_cause", "shape": "handler invoked again after its final outcome was recorded on the object earlier in the same handling cycle"}
 
 
 def oracle_recorded(ctx: Ctx, sc: dict, tr: dict) -> None:
@@ -1916,6 +2160,14 @@ def run(ctx: Ctx) -> None:
     scenarios += [gen_legacy(ctx.rng, 97_000_000 + ctx.seed * 100000 + i) for i in range(max(30, n // 8))]
     scenarios += [gen_stacked_resume(ctx.rng, 98_000_000 + ctx.seed * 100000 + i) for i in range(max(40, n // 6))]
     scenarios += [gen_reselect(ctx.rng, 99_000_000 + ctx.seed * 100000 + i) for i in range(max(50, n // 4))]
+    scenarios += [gen_stale_view(ctx.rng, 99_500_000 + ctx.seed * 100000 + i) for i in range(max(50, n // 4))]
+    # the server's numbering of its versions is part of EVERY history (drawn from the scenario's own seed: the families' own
+    # streams of draws stay as they were)
+    for sc in scenarios:
+        if "rv" not in sc and sc.get("family") != "stale-view":
+            rvp = gen_rv_plan(random.Random(int(sc.get("seed", 0)) * 7919 + 13))
+            if rvp is not None:
+                sc["rv"] = rvp
     # other progress storages: a sample of every family re-run under another `settings.persistence.progress_storage`
     pick = [sc for sc in scenarios if not sc.get("objects") or sc.get("family") != "legacy"]
     scenarios += [with_storage(ctx.rng, sc) for sc in ctx.rng.sample(pick, min(len(pick), max(60, n // 4)))]
@@ -1924,6 +2176,12 @@ def run(ctx: Ctx) -> None:
     scenarios = [_with_runner(sc) for sc in scenarios]
     for sc in scenarios:
         ctx.count("family", sc.get("family") or "base")
+        rvp_ = sc.get("rv") or {}
+        ctx.count("rv_plan", rvp_.get("mode") or ("corpus plan" if rvp_ else "the fake server's default (101, 102, …)"))
+        if sc.get("family") == "stale-view":
+            ctx.count("stale_view_window", ("a handler sleeps while somebody edits" if any(isinstance(a, list) and a and a[0] == "sleep"
+                                            for h in sc["handlers"] for a in h.get("script", [])) else "") +
+                      ("+a foreign write right before the own PATCH" if sc.get("slips") else ""))
         if sc.get("after_ending"):
             ctx.count("parent_ending_after_its_children", sc["after_ending"])
         if sc.get("reselect_way"):
@@ -2065,6 +2323,12 @@ def search(ctx: Ctx, broken: list) -> None:
     scenarios += [gen_supersede(ctx.rng, 57_000_000 + ctx.seed * 100000 + i) for i in range(n // 8)]
     scenarios += [gen_legacy(ctx.rng, 97_700_000 + ctx.seed * 100000 + i) for i in range(n // 8)]
     scenarios += [gen_reselect(ctx.rng, 99_700_000 + ctx.seed * 100000 + i) for i in range(n // 4)]
+    scenarios += [gen_stale_view(ctx.rng, 99_900_000 + ctx.seed * 100000 + i) for i in range(n // 3)]
+    for sc in scenarios:
+        if "rv" not in sc and sc.get("family") != "stale-view":
+            rvp = gen_rv_plan(random.Random(int(sc.get("seed", 0)) * 7919 + 13))
+            if rvp is not None:
+                sc["rv"] = rvp
     scenarios += [with_storage(ctx.rng, sc) for sc in ctx.rng.sample(scenarios, min(len(scenarios), n // 4))]
     # bias: replay the scenarios of the diverging passes first
     for b in broken[:10]:
